@@ -39,9 +39,8 @@ func (sx *server) sendUnicast(hwaddr net.HardwareAddr, payload []byte) error {
 // getDuid returns the duid to use for this client, based on the static assignements config.
 func (sx *server) getDuid(hwaddr net.HardwareAddr, cid []byte) d.Duid {
 	sduid := duidFromHwAddr(hwaddr)
-	if _, err := sx.ipdb.LookupClientByDuid(sduid); err == nil {
-		// Found client with our own internal duid representation, most likely
-		// due to a static assignment, so we use the internal version.
+	if ov, ok := sx.overrides[sduid.String()]; ok && ov.IP != nil {
+		// This hwaddr has a static assignment, so we use the internal version.
 		return sduid
 	}
 	if len(cid) < 4 || bytes.HasPrefix(cid, internalDuidPrefix) {
